@@ -143,7 +143,8 @@ def simplify_after_folding(tree: ast.Module, module: str, known_locals: dict[str
             while i < len(blk):
                 st = blk[i]
                 if isinstance(st, ast.Assign) and len(st.targets) == 1 and isinstance(st.targets[0], ast.Tuple) and isinstance(st.value, ast.Tuple) and len(st.targets[0].elts) == len(st.value.elts) \
-                        and all(isinstance(t, ast.Name) and t.id not in known for t in st.targets[0].elts) and all(_pure_rhs(v) and not isinstance(v, ast.Lambda) for v in st.value.elts):
+                        and all(isinstance(t, ast.Name) for t in st.targets[0].elts) and all(_pure_rhs(v) and not isinstance(v, ast.Lambda) for v in st.value.elts):
+                    # (known locals as well: the rewrite is exact, and the pinned tree has no tuple-to-tuple binding for a rule to have been written against)
                     tnames = {t.id for t in st.targets[0].elts}
                     if not any(isinstance(x, ast.Name) and x.id in tnames for v in st.value.elts for x in ast.walk(v)):
                         new = [ast.copy_location(ast.Assign(targets=[t], value=v, type_comment=None), st) for t, v in zip(st.targets[0].elts, st.value.elts)]
@@ -189,14 +190,16 @@ def simplify_after_folding(tree: ast.Module, module: str, known_locals: dict[str
         for st in body:
             if isinstance(st, FuncNode):
                 qn = f'{prefix}{st.name}'
-                split_tuples(st, qn)
-                const_then_test(st, qn)
-                one(st, qn)
-                for n in _own(st):
-                    if isinstance(n, FuncNode):
-                        split_tuples(n, f'{qn}.{n.name}')
-                        const_then_test(n, f'{qn}.{n.name}')
-                        one(n, f'{qn}.{n.name}')
+                def all_levels(fn_, q_):
+                    yield fn_, q_
+                    for n_ in _own(fn_):
+                        if isinstance(n_, FuncNode):
+                            yield from all_levels(n_, f'{q_}.{n_.name}')
+
+                for n, nq in all_levels(st, qn):
+                    split_tuples(n, nq)
+                    const_then_test(n, nq)
+                    one(n, nq)
             elif isinstance(st, ast.ClassDef):
                 visit(st.body, f'{st.name}.')
             elif isinstance(st, (ast.If, ast.Try)):
